@@ -1957,6 +1957,9 @@ def judge_module(fns, arg_sets, stats, on_exec=None):
                              "xterms": ts, "pyvalue": val, "top": name,
                              "subj_xterms": terms(as_subject[(owner, node.id)])
                              if isinstance(node, ast.Name) and (owner, node.id) in as_subject else None,
+                             # what was inferred for the root NAME of a failing subscript (a union there: see compositeUnionRoot)
+                             "root_xterms": terms(subj_index[id(node.value)])
+                             if isinstance(node, ast.Subscript) and id(node.value) in subj_index else None,
                              "what": "%s evaluated to %r, which is not in the inferred %s" % (ast.unparse(node), val, inferred)}
             if first is not None:
                 failures.append(first)
@@ -3057,6 +3060,10 @@ def conforms_to(cls, f):
         return isinstance(val, int) or isinstance(val, float)  # an int / bool (float for complex) dropped by the negative branch
     if cls == "loopConstraintCycle":
         return bool(f.get("never"))
+    if cls == "unionMemberConstraint":
+        # the class is about the value the variable has when the carrying variable is tested being the one the stored test
+        # was made on: a parameter that is reassigned between the two is another matter (a stale constraint)
+        return not f.get("var_reassigned")
     if cls == "compositeUnionRoot":
         # the value comes from a union member other than the first one (whose narrowed element type is what was cached)
         return f.get("root_in_first_member") is not True
@@ -3206,10 +3213,14 @@ def _and_all(rs):
 
 def union_root_facts(fnode, node, f):
     """(unionRoot, narrowedByTest) for a failing subscript read `t[k]...`; sets f["root_in_first_member"]."""
-    ap = access_path(node)
-    if ap is None or not isinstance(node, ast.Subscript):
+    if not isinstance(node, ast.Subscript):
         return None
-    root, _ = ap
+    base = node
+    while isinstance(base, (ast.Subscript, ast.Attribute)):
+        base = base.value
+    if not isinstance(base, ast.Name):
+        return None
+    root = base.id          # the key may be any literal, a slice of literals included (`p[1:2]` is a composite too)
     text = ast.unparse(node)
     params = [a.arg for a in fnode.args.args]
     union_root = False
@@ -3230,12 +3241,19 @@ def union_root_facts(fnode, node, f):
             if isinstance(st, ast.Assign) and any(isinstance(t, ast.Name) and t.id == root for t in st.targets) and \
                     isinstance(st.value, ast.IfExp):
                 union_root = True
+    if not union_root:
+        # the root name itself was narrowed to a union (`p != 'a' or p` leaves `str | Literal['a']`): the same per-member lookup
+        union_root = any(t is not None and t[0] == "union" and len(t[1]) >= 2 for t in (f.get("root_xterms") or []))
     narrowed = False
+    in_loop = any(isinstance(lp, (ast.For, ast.While)) and any(x is node for x in ast.walk(lp)) for lp in ast.walk(fnode))
     for st in ast.walk(fnode):
-        test = st.test if isinstance(st, (ast.If, ast.While, ast.Assert, ast.IfExp)) else None
-        if test is not None and st.lineno <= node.lineno and any(
-                isinstance(x, ast.Subscript) and ast.unparse(x) == text for x in ast.walk(test)):
-            narrowed = True
+        # a test on the composite: the test of a statement / conditional expression, or a non-last operand of and / or
+        tests = [st.test] if isinstance(st, (ast.If, ast.While, ast.Assert, ast.IfExp)) else \
+            (st.values[:-1] if isinstance(st, ast.BoolOp) else [])
+        for test in tests:
+            if (st.lineno <= node.lineno or in_loop) and any(
+                    isinstance(x, ast.Subscript) and ast.unparse(x) == text for x in ast.walk(test)):
+                narrowed = True
     return union_root, narrowed
 
 
@@ -3282,6 +3300,11 @@ def classify_requests(failures, fn_src_of):
             uf = union_root_facts(fnode, node, f)
             if uf is not None and uf[0]:
                 reqs.append((i, "curt %d %d" % uf, ["compositeUnionRoot"] if all(uf) else []))
+        if isinstance(node, ast.Name):
+            # is the failing variable assigned anywhere in the body (parameters: only their reassignments count)?
+            n_asg = sum(1 for st in ast.walk(fnode)
+                        if isinstance(st, (ast.Assign, ast.AugAssign, ast.AnnAssign, ast.For)) and node.id in _targets(st))
+            f["var_reassigned"] = n_asg >= (1 if node.id in [a.arg for a in fnode.args.args] else 2)
         call = node if isinstance(node, ast.Call) else None
         if isinstance(node, ast.Name):
             # a name whose value is the result of a call (the call's own inferred value may be Any with extra metadata,
@@ -3629,7 +3652,7 @@ class UnionRootGen:
 def composite_stream(ctx, stats, feats, on_exec):
     """Returns (failures, modules): functions of the COMPOSITE grammar, judged like the rest."""
     rng = ctx.rng
-    n_fns = ctx.n(200, 4000)
+    n_fns = ctx.n(200, 2000)
     per_mod = 25
     failures, modules = [], {}
     for m in range((n_fns + per_mod - 1) // per_mod):
@@ -3842,7 +3865,7 @@ class MatchGen:
 
 def match_stream(ctx, stats, feats, on_exec):
     rng = ctx.rng
-    n_fns = ctx.n(250, 5000)
+    n_fns = ctx.n(250, 2500)
     per_mod = 25
     failures, modules = [], {}
     for m in range((n_fns + per_mod - 1) // per_mod):
@@ -4051,11 +4074,38 @@ class CondGen:
 
     def statement(self, ind):
         rng = self.rng
-        shape = rng.choice(["if", "if", "if", "elif", "ifnot", "while", "whilenot", "ifexp", "assert", "return", "if_in_loop"])
+        shape = rng.choice(["if", "if", "if", "elif", "ifnot", "while", "whilenot", "ifexp", "assert", "return", "if_in_loop",
+                            "stored", "stored"])
         self.feat("shape_" + shape)
         out = []
         i2 = ind + "    "
-        if shape in ("if", "ifnot"):
+        if shape == "stored":
+            # a narrowing test stored in a variable, the tested variable reassigned on SOME paths, then the stored test used
+            x, k = rng.choice([v for v in self.vars if v[1] in "IOSP"])
+            lit = {"I": ["0", "1", "7"], "O": ["None", "1", "7"], "S": ["'a'", "'z'", "''"], "P": ["None", "'a'", "'z'"]}[k]
+            tests = ["%s is None" % x, "%s is not None" % x, "isinstance(%s, int)" % x, "isinstance(%s, str)" % x,
+                     "%s == %s" % (x, rng.choice(lit)), "%s != %s" % (x, rng.choice(lit)), self.chain(), "not (%s)" % self.chain()]
+            self.counter += 1
+            ok = "ok%d" % self.counter
+            out.append("%s%s = %s" % (ind, ok, rng.choice(tests)))
+            how = rng.choice(["if", "if", "while", "except", "for", "none"])
+            self.feat("stored_reassign_" + how)
+            asg = "%s%s = %s" % (i2, x, rng.choice(lit))
+            if how == "if":
+                out += ["%sif %s:" % (ind, self.opaque()), asg]
+            elif how == "while":
+                out += ["%swhile %s:" % (ind, self.opaque()), asg, i2 + "break"]
+            elif how == "except":
+                out += [ind + "try:", i2 + "boom(c)", ind + "except ValueError:", asg]
+            elif how == "for":
+                ls = self.vars_of("L")
+                out += ["%sfor _j in %s:" % (ind, rng.choice(ls) if ls else "range(int(c))"), asg]
+            use = rng.choice([ok, "not %s" % ok, "(%s and %s)" % (ok, self.opaque()), "(%s or %s)" % (self.opaque(), ok)])
+            if rng.random() < 0.2:
+                out += ["%swhile %s:" % (ind, use), self.reads(i2), i2 + "break"]
+            else:
+                out += ["%sif %s:" % (ind, use), self.reads(i2), ind + "else:", self.reads(i2)]
+        elif shape in ("if", "ifnot"):
             c = self.cond()
             out.append("%sif %s:" % (ind, c if shape == "if" else "not (%s)" % c))
             out.append(self.reads(i2))
@@ -4166,7 +4216,7 @@ class UnannotatedGen:
 
 def cond_stream(ctx, stats, feats, on_exec):
     rng = ctx.rng
-    n_fns = ctx.n(300, 4000)
+    n_fns = ctx.n(300, 2000)
     per_mod = 25
     failures, modules = [], {}
     for m in range((n_fns + per_mod - 1) // per_mod):
@@ -4311,7 +4361,7 @@ def chain_stream(ctx, with_model=True):
     `Test.branches` of Core/CmpChain.lean (stream chain); the value of the test under CPython vs `Test.eval`
     (stream chainEval)."""
     rng = ctx.rng
-    n_fns = ctx.n(250, 2500)
+    n_fns = ctx.n(250, 1200)
     per_mod = 25
     for m in range((n_fns + per_mod - 1) // per_mod):
         cases = [ChainGen(rng, "c%d" % i).generate() for i in range(per_mod)]
@@ -4469,7 +4519,7 @@ def mini_from_json(p):
 def exec_stream(ctx, with_model=True):
     rng = ctx.rng
     stats, feats = {}, {}
-    n_fns = ctx.n(800, 10000)
+    n_fns = ctx.n(800, 5000)
     n_args = ctx.n(6, 8)
     per_mod = 20
     shrink_budget = [3]
@@ -4548,7 +4598,7 @@ def mini_progs(ctx):
     small = mini_small_programs()
     if not ctx.big():
         small = small[::3]
-    return progs + small + [g.program() for _ in range(ctx.n(250, 4000))]
+    return progs + small + [g.program() for _ in range(ctx.n(250, 2000))]
 
 
 def malformed(ctx):
@@ -4654,7 +4704,12 @@ def replay(ctx, data):
     if "fns" in case:
         fns = load_fns(case["fns"])
         stats = {}
-        fl, src = judge_module(fns, {case["fn"]: [args_from_json(case["args"])]}, stats)
+        # some inferred values depend on the order in which identity-hashed constraint objects are iterated, which varies
+        # from run to run (see compositeUnionRoot): a recorded failure is re-tried a few times before it counts as gone
+        for _attempt in range(8):
+            fl, src = judge_module(fns, {case["fn"]: [args_from_json(case["args"])]}, stats)
+            if fl:
+                break
         for f in fl:
             f["module"] = 0
         classify(ctx, fl, lambda f: next((g["src"] for g in fns if g["name"] == f["owner"]), None))
@@ -4668,4 +4723,13 @@ def replay(ctx, data):
         mini_stream(ctx, [p])
     print(json.dumps({"candidates": [{k: c[k] for k in ("what", "class", "conforms")} for c in ctx.candidates],
                       "broken": ctx.broken[:3]}, indent=1, default=str)[:3000])
-    return 1 if (ctx.candidates or ctx.broken) else 0
+    # a reproduced failure that is a listed known finding (and conforms) is reported as such, exit 0; anything else exit 1
+    from harness import main as _main
+    known = {e["class"]: e for e in _main.load_known(ctx.prop) if e.get("status") == "known"}
+    new = [c for c in ctx.candidates if not (c["class"] in known and c["conforms"])]
+    for c in ctx.candidates:
+        if c not in new:
+            print("KNOWN-FINDING: property=%s class=%s %s" % (ctx.prop, c["class"], known[c["class"]].get("what", "")[:300]))
+    for c in new:
+        print("VIOLATION property=%s (replayed) class=%s conforms=%s: %s" % (ctx.prop, c["class"], c["conforms"], c["what"]))
+    return 1 if (new or ctx.broken) else 0
